@@ -416,6 +416,13 @@ fn obu(rng: &mut Rng, typ: u8, payload: &[u8], with_size: bool, allow_ext: bool)
 
 /// Grammar-built sequence header payload (AV1 spec 5.5), all branches reachable.
 pub fn av1_sequence_header_payload(rng: &mut Rng) -> Vec<u8> {
+    av1_sequence_header_payload_ex(rng, false).0
+}
+
+/// `exotic`: also draw legal-but-extreme syntax element encodings (uvlc codes with 31..40 leading
+/// zeros); the second result says whether a careful reader must still accept the header.
+pub fn av1_sequence_header_payload_ex(rng: &mut Rng, exotic: bool) -> (Vec<u8>, bool) {
+    let mut ordinary = true;
     let mut w = BitW::new();
     let profile = rng.below(3);
     w.bits(profile, 3);
@@ -435,11 +442,19 @@ pub fn av1_sequence_header_payload(rng: &mut Rng) -> Vec<u8> {
             let eq = rng.bool();
             w.bit(eq);
             if eq {
-                // uvlc: k leading zeros, a one, k bits
-                let k = rng.below(6) as u32;
+                // uvlc: k leading zeros, a one, k bits (k >= 32 encodes 2^32-1 and carries no value bits in the
+                // spec; readers differ, so such headers are not claimed to be acceptable)
+                let k = if exotic && rng.chance(1, 2) { *rng.pick(&[30u32, 31, 32, 33, 40]) } else { rng.below(6) as u32 };
+                if k >= 31 {
+                    ordinary = false;
+                }
                 w.bits(0, k);
                 w.bit(true);
-                w.bits(rng.below(1 << k), k);
+                if k < 32 {
+                    w.bits(rng.next_u64() & ((1u64 << k) - 1), k);
+                } else {
+                    w.bits(rng.next_u64() & 0xffff_ffff, 32);
+                }
             }
             decoder_model = rng.bool();
             w.bit(decoder_model);
@@ -604,7 +619,7 @@ pub fn av1_sequence_header_payload(rng: &mut Rng) -> Vec<u8> {
     // trailing_bits() may span further zero bytes; one is added so that a reader that
     // consumes a few bits more than the syntax has never runs dry (keeps MustAccept honest)
     out.push(0x00);
-    out
+    (out, ordinary)
 }
 
 pub fn build_av1(rng: &mut Rng, shape: FrameShape, stamp: u64, payload: usize, decorate: bool) -> BuiltFrame {
@@ -619,8 +634,11 @@ pub fn build_av1(rng: &mut Rng, shape: FrameShape, stamp: u64, payload: usize, d
         let p = rng.bytes(n);
         data.extend(obu(rng, 15, &p, true, decorate)); // padding
     }
+    let mut conforming = true;
     if has_config {
-        let p = av1_sequence_header_payload(rng);
+        let exotic = decorate && rng.chance(1, 25);
+        let (p, ok) = av1_sequence_header_payload_ex(rng, exotic);
+        conforming = ok;
         data.extend(obu(rng, 1, &p, true, decorate));
     }
     if decorate && rng.chance(1, 8) {
@@ -636,7 +654,8 @@ pub fn build_av1(rng: &mut Rng, shape: FrameShape, stamp: u64, payload: usize, d
     p.extend(rng.bytes(extra));
     let last_without_size = decorate && rng.chance(1, 8);
     data.extend(obu(rng, 6, &p, !last_without_size, decorate));
-    BuiltFrame { stored: data.clone(), data, has_config, is_key_picture: None }
+    // an extreme header is still "has the configuration", but nobody is obliged to accept it
+    BuiltFrame { stored: data.clone(), data, has_config: has_config && conforming, is_key_picture: None }
 }
 
 // ---------------------------------------------------------------- VP9 (the form the library accepts)
